@@ -11,11 +11,133 @@ import (
 
 // C30 — saved sessions hold the key confirmed for the primary DC.
 func init() {
-	register("C30", []string{"telegram"}, func(c *engine.Ctx) {
+	register("C30", []string{"telegram", "mtproto", "telegram/internal/manager"}, func(c *engine.Ctx) {
 		c.Explain("C30: (R1) in Client.onSession the update of the tracked primary session (c.session.Store) and the call of saveSession are reachable only through an edge on which the reporting connection's DC equals the tracked primary DC (or one of them is unknown = 0); the value stored is dcSessionFromMTProto(cfg.ThisDC, s) and saveSession receives the same (cfg, s); onCDNSession reaches neither; saveSession is called from nowhere else. (R2, origins) everything saveSession writes into the persisted record comes from its own (cfg, s) pair: DC = cfg.ThisDC, Salt = s.Salt, AuthKey and AuthKeyID are the Value and ID of one key variable that is s.Key, replaced by s.PermKey exactly under !s.PermKey.Zero(); the record saved is the one these fields were written to and a Save error is returned; dcSessionFromMTProto makes the same key decision (sibling agreement). (R3) in restoreConnection the stored session is adopted (c.session.Store) only under key.Value.ID() == key.ID, where key.Value is written only by the copy from the stored AuthKey and key.ID only by the copy from the stored AuthKeyID (a recomputed id would make the test vacuous), and the adopted session pairs that key with DC and Salt of the same loaded record.")
 		c.NotCover("the order in which several connections report; what the storage backend does (C31)")
 		c30(c)
+		c30R4(c)
+		c30R5(c)
 	})
+}
+
+// c30R4: saveSession prefers a non-zero PermKey (R2). That is right only if
+// "PermKey is non-zero only in PFS mode" (mtproto.Session's documented
+// invariant): without PFS the connection regenerates Key in place when the
+// server has forgotten it, and a PermKey that still holds the restored key
+// would be persisted instead of the confirmed one. Rule: in package mtproto a
+// store into a PermKey/permKey field takes its value from (a) a PermKey, (b)
+// the zero value, (c) an exchange result inside a function reached only
+// through the pfs branch, or (d) a plain Key — and (d) only on an edge where
+// the PFS flag is true.
+func c30R4(c *engine.Ctx) {
+	isPFS := func(k engine.Cmp) bool {
+		b, isB := engine.ConstBool(k.Y)
+		d := engine.Describe(k.X)
+		return isB && (strings.HasSuffix(d, ".EnablePFS") || strings.HasSuffix(d, ".pfs")) && ((b && k.Op == token.EQL) || (!b && k.Op == token.NEQ))
+	}
+	sp := c.SSA["mtproto"]
+	var guardedFn func(f *ssa.Function, depth int) bool
+	guardedFn = func(f *ssa.Function, depth int) bool {
+		if depth > 3 {
+			return false
+		}
+		callers := 0
+		for _, h := range allFunctions(c, sp) {
+			for _, g := range engine.WithAnon(h) {
+				for _, call := range engine.Calls(g) {
+					if call.Common().StaticCallee() != f {
+						continue
+					}
+					callers++
+					if !engine.GuardedBy(call, isPFS) && !guardedFn(g, depth+1) {
+						return false
+					}
+				}
+			}
+		}
+		return callers > 0
+	}
+	n := 0
+	for _, h := range allFunctions(c, sp) {
+		for _, g := range engine.WithAnon(h) {
+			engine.Instrs(g, func(i ssa.Instruction) {
+				st, ok := i.(*ssa.Store)
+				if !ok {
+					return
+				}
+				fa, isFA := st.Addr.(*ssa.FieldAddr)
+				if !isFA {
+					return
+				}
+				if nm := engine.FieldNameOf(fa); nm != "PermKey" && nm != "permKey" {
+					return
+				}
+				n++
+				d := engine.Describe(st.Val)
+				ok2, why := false, "value "+d
+				switch {
+				case strings.HasSuffix(d, ".PermKey") || strings.HasSuffix(d, ".permKey"):
+					ok2 = true
+				case strings.Contains(d, "AuthKey{}") || d == "zero" || isZeroStruct(st.Val):
+					ok2 = true
+				case strings.HasSuffix(d, ".Key") || strings.HasSuffix(d, ".authKey"):
+					ok2 = engine.GuardedBy(st, isPFS)
+					why = "a plain Key is copied into PermKey outside the PFS branch"
+				case strings.HasSuffix(d, ".AuthKey"):
+					ok2 = engine.GuardedBy(st, isPFS) || guardedFn(g, 0)
+					why = "an exchange result becomes PermKey in a function that is reachable without the PFS flag"
+				}
+				c.Check(ok2, "C30.R4", engine.FuncID(g)+"/perm-key-only-under-pfs#"+ordinal(g, st), st.Pos(), "PermKey must stay zero outside PFS mode (saveSession persists it in preference to the confirmed Key): %s", why)
+			})
+		}
+	}
+	c.Floor("C30.R4", 4, n)
+}
+
+func isZeroStruct(v ssa.Value) bool {
+	if k, ok := v.(*ssa.Const); ok && k.Value == nil {
+		return true
+	}
+	if ld, ok := v.(*ssa.UnOp); ok && ld.Op == token.MUL {
+		if al, isA := ld.X.(*ssa.Alloc); isA {
+			for _, r := range *al.Referrers() {
+				switch r.(type) {
+				case *ssa.Store, *ssa.FieldAddr, *ssa.IndexAddr:
+					return false
+				}
+			}
+			return true
+		}
+	}
+	return false
+}
+
+// c30R5: the (cfg, session) pair that reaches Client.onSession comes from
+// manager.Conn, which forwards a session at once when its config is known
+// (gotConfig signalled) and buffers it otherwise. The pair is right only if
+// the config is stored before readiness is signalled: every gotConfig.Signal()
+// is dominated by a store to c.cfg in the same function (a session forwarded
+// in between would carry ThisDC = 0, which R1 treats as "unknown, accept").
+func c30R5(c *engine.Ctx) {
+	n := 0
+	for _, h := range allFunctions(c, c.SSA["telegram/internal/manager"]) {
+		for _, g := range engine.WithAnon(h) {
+			for _, call := range engine.CallsTo(g, false, "(*tdsync.Ready).Signal") {
+				if !strings.HasSuffix(descCell(engine.Args(call.Common())[0]), ".gotConfig") {
+					continue
+				}
+				n++
+				ok := false
+				engine.Instrs(g, func(i ssa.Instruction) {
+					if st, isS := i.(*ssa.Store); isS && strings.HasSuffix(engine.Describe(st.Addr), ".cfg") && engine.Dominates(st, call) {
+						ok = true
+					}
+				})
+				c.Check(ok, "C30.R5", engine.FuncID(g)+"/config-stored-before-ready#"+ordinalCall(g, call), call.Pos(), "gotConfig may be signalled only after c.cfg was stored: a session reported in between is forwarded with a zero config (ThisDC = 0 passes the primary-DC filter)")
+			}
+		}
+	}
+	c.Floor("C30.R5", 2, n)
 }
 
 func c30(c *engine.Ctx) {
